@@ -635,6 +635,10 @@ func (fr *Frame) instr(in ssa.Instruction) bool {
 		if _, ok := c.P.Specs.Pures["ctxChan"]; ok {
 			// a channel made by module code is not the Done channel of any context (those are made
 			// inside package context and never handed out for sending)
+			if !c.declared["pure_ctxChan"] {
+				c.declared["pure_ctxChan"] = true
+				c.emit("(declare-fun pure_ctxChan (Ref) Bool)")
+			}
 			c.assert(implies(fr.pc, "(not (pure_ctxChan "+fr.vals[x]+"))"))
 			c.assumed["a channel created by make in module code is not the Done channel of a context"] = true
 		}
